@@ -49,7 +49,7 @@ MACROS = ['nat_eval', 'int_eval', 'int_const_ineq', 'real_eval', 'real_const_eq'
 
 
 def bounds(tier):
-    return {'macros': MACROS + ['real_eq_comparison'], 'ground_goals': 'depth-1 sides exhaustively; casts of_nat / of_int of every depth-1 expression against -4..4; depth-2 sides %d seeded goals per type' % (900 if tier == 'quick' else 40000),
+    return {'macros': MACROS + ['real_eq_comparison'], 'ground_goals': 'depth-1 sides exhaustively; casts of_nat / of_int of every depth-1 expression against -4..4; huge and near-equal constants (2^53 + 1 vs 2^53, 1 + 1/10^20 vs 1, ...) in both orders with all relations; depth-2 sides %d seeded goals per type' % (900 if tier == 'quick' else 40000),
             'poly_goals': 400 if tier == 'quick' else 8000, 'fp_templates': FP_TEMPLATES, 'fp_numeral_bits': 8, 'fp_timeout_s': 30 if tier == 'quick' else 400, 'fp_solvers': 'z3 5.1 and cvc5 1.0.3 binaries concurrently, first definitive answer', 'fp_queries': 'quick: template 0 all relations, template 1 < >, template 3 <; thorough: all'}
 
 
@@ -191,8 +191,38 @@ def cast_exprs(Tn):
     return _E[key]
 
 
+def near_exprs(Tn):
+    """Huge and near-equal constants: pairs (a, b) whose difference is far below the resolution of IEEE doubles."""
+    key = ('near', Tn)
+    if key in _E:
+        return _E[key]
+    from kernel.type import NatType, IntType, RealType
+    from kernel import term as T
+    from kernel.term import Number, Nat
+    ty = {'nat': NatType, 'int': IntType, 'real': RealType}[Tn]
+    N = lambda v: Number(ty, v)
+    P = lambda b, e: T.nat_power(ty)(N(b), Nat(e))
+    pairs = [(P(2, 53) + N(1), P(2, 53)), (P(10, 30) + N(1), P(10, 30)), (P(2, 64), P(2, 64) - N(1)), (N(2 ** 53 + 1), N(2 ** 53)), (P(10, 20) * N(3), P(10, 20) * N(3) + N(1))]
+    if Tn == 'real':
+        pairs += [(N(1) + N(1) / P(10, 20), N(1)), (N(1) / N(3), N(Fraction(333333333333333333333, 10 ** 21))), (N(1) - N(1) / P(2, 70), N(1)),
+                  (N(Fraction(1, 3)) + N(Fraction(1, 10 ** 25)), N(Fraction(1, 3))), (N(1) / P(10, 20), N(0)), (N(2) / N(3) + N(1) / P(10, 18), N(2) / N(3))]
+    _E[key] = pairs
+    return pairs
+
+
 def run_ground(u, out):
     _, tier, seed, Tn, mode, lo, hi = u
+    if mode == 'near':
+        prs = near_exprs(Tn)
+        for i, (a, b) in enumerate(prs):
+            for swap in (0, 1):
+                l, r_ = (a, b) if not swap else (b, a)
+                for r in RELS:
+                    goal = mk_goal(r, l, r_)
+                    for m in MACROS:
+                        check_goal(m, goal, out, {'part': 'ground', 'type': Tn, 'depth': 'near', 'i': i, 'j': swap, 'rel': r, 'macro': m})
+        out['samples'].append({'goal': str(mk_goal('eq', prs[0][0], prs[0][1])), 'macros': 'all %d' % len(MACROS)})
+        return
     if mode == 'cast':
         casts, nums = cast_exprs(Tn)
         for i in range(lo, min(hi, len(casts))):
@@ -661,6 +691,8 @@ def units(tier, seed):
         total = 900 if tier == 'quick' else 40000
         for lo in range(0, total, per):
             us.append(('ground', tier, seed, Tn, 'd2', lo, lo + per))
+    for Tn in ('nat', 'int', 'real'):
+        us.append(('ground', tier, seed, Tn, 'near', 0, 0))
     for Tn in ('int', 'real'):
         nc = len(cast_exprs(Tn)[0])
         for lo in range(0, nc, 8):
@@ -702,7 +734,10 @@ def replay(c):
         return replay_fp(c)
     if c.get('part') == 'poly':
         return replay_poly(c)
-    if c['depth'] == 'cast':
+    if c['depth'] == 'near':
+        a, b = near_exprs(c['type'])[c['i']]
+        goal = mk_goal(c['rel'], *((a, b) if not c['j'] else (b, a)))
+    elif c['depth'] == 'cast':
         casts, nums = cast_exprs(c['type'])
         goal = mk_goal(c['rel'], casts[c['i']], nums[c['j']])
     else:
